@@ -47,9 +47,13 @@ def c_read(text, quote='"', adjacent=True, portable=True):
     while i < len(src):
         ch = src[i]
         if ch == quote:
-            if adjacent and quote == '"' and i + 1 < len(src) and src[i + 1] == '"':
-                i += 2          # `""`: the literal ends, the next one starts
-                continue
+            if adjacent and quote == '"':
+                j = i + 1
+                while j < len(src) and src[j] in ' \t\n':
+                    j += 1      # white space between adjacent string literal tokens (C11 5.1.1.2 phase 6/7)
+                if j < len(src) and src[j] == '"':
+                    i = j + 1   # `""` / `" "`: the literal ends, the next one starts
+                    continue
             raise CReadError('unescaped %s at offset %d ends the literal early' % (quote, i))
         if ch == '\n' or (portable and not (32 <= ord(ch) <= 126)):
             raise CReadError('character %r at offset %d is outside the portable source character set' % (ch, i))
